@@ -187,14 +187,21 @@ func runC19(c *Ctx) {
 	cases, n = replayCases(c, "j2k_tiled_roundtrip", cases)
 	ParallelFor(n, c.Work, func(i int) {
 		k := cases[i]
-		nt := ((k.W + k.TW - 1) / k.TW) * ((k.H + k.TH - 1) / k.TH)
+		nt := 1
+		if k.TW > 0 && k.TH > 0 {
+			nt = ((k.W + k.TW - 1) / k.TW) * ((k.H + k.TH - 1) / k.TH)
+		}
 		c.R.Case(k.String(), nt > 1 && k.Content != 3, fmt.Sprintf("c19.tiles.%d", min(nt, 16)), fmt.Sprintf("c19.levels.%d", k.Levels), fmt.Sprintf("c19.layers.%d", k.Layers),
 			fmt.Sprintf("c19.oddtile.%v", k.TW%2 == 1 || k.TH%2 == 1))
 		if i < 2 {
 			c.R.Sample(k)
 		}
 		c.R.Oracle("j2k_tiled_roundtrip")
-		if site, what, _ := RoundTrip(k); site != "" {
+		site, what, _ := RoundTrip(k)
+		if c.Replay != "" {
+			c.R.Note("replay %s -> %s %s", k.String(), site, what)
+		}
+		if site != "" {
 			c.R.Fail("oracle", "j2k_tiled_roundtrip", sigC04("c19", k, site), what+" | "+k.String(), k)
 		}
 	})
